@@ -32,7 +32,7 @@ def completed_ops(an: Analysis, attr_names=("_completed",)):
     """Calls <x>._completed.<op>() anywhere in the package where x is a ScopeMetrics."""
     smq = an.prog.cls(SM).qualname
     out = []
-    for fi in an.prog.functions.values():
+    for fi in an.prog.scan_functions():
         for n in fi.own_nodes():
             if isinstance(n, ast.Call) and isinstance(n.func, ast.Attribute) and isinstance(n.func.value, ast.Attribute):
                 recv = n.func.value
@@ -300,7 +300,7 @@ def check(an: Analysis) -> None:
         if not preds:
             continue
         selfname = callee.node.args.args[0].arg
-        for fi in prog.functions.values():
+        for fi in prog.scan_functions():
             for c in calls_to(an, fi, callee.qualname):
                 recv = c.func.value  # type: ignore[union-attr]
                 key = (fi.qualname, callee.name)
